@@ -13,6 +13,7 @@ package controller
 //@   requires mapInv(f) && util.inInt32(target)
 //@   ensures[C12.nearest C01 C05] nearestIn(distinct(f), result, target)
 //@   ensures[C12.exact C01 C05]   (forall k :: 0 <= k && k < len(distinct(f)) && distinct(f)[k] == target ==> result == target)
+//@   ensures[C05.fn] result == closestOf(target, distinct(f))
 //@   modifies nothing
 
 //@ func (*DefaultFanController).applyPwmMapping
@@ -22,16 +23,22 @@ package controller
 
 //@ func (*DefaultFanController).getPwm
 //@   requires fans.fanWF(f.fan)
+//@   ensures[C05.read] f.fan is *fans.HwMonFan && result1 == nil && supportsResult[fans.FeaturePwmSensor] ==> result0 == fileInt[fans.hwPwmPath(f.fan.(*fans.HwMonFan))]
 //@   modifies f.fan.(*fans.HwMonFan).Pwm, f.fan.(*fans.FileFan).Pwm, f.fan.(*fans.CmdFan).Pwm, procWorld, started, lastReadFailed, supportsResult
 
+//@ ghost var setOK gmap[int]bool
 //@ func (*DefaultFanController).setPwm
 //@   props C12
+//@   ghostret setOK[f] := err == nil
+//@   ensures setOK[f] == (err == nil)
 //@   requires mapInv(f) && fans.fanWF(f.fan) && util.inInt32(target)
 //@   atcall[C12.write C01 C05] SetPwm: exists s :: nearestIn(distinct(f), s, target) && pwm == f.pwmMap[s]
 //@   ensures[last] f.lastSetPwm != nil && *f.lastSetPwm == target
 //@   ensures[C12.others C01 C05] forall o int :: o != ref(f.fan) ==> pwmWrites[o] == old(pwmWrites)[o] && lastPwm[o] == old(lastPwm)[o]
+//@   ensures[C05.device] f.fan is *fans.HwMonFan && fans.hwPwmPath(f.fan.(*fans.HwMonFan)) in faithful && (pwmWrites[f.fan] == old(pwmWrites)[f.fan] ==> err == nil) && (pwmWrites[f.fan] != old(pwmWrites)[f.fan] ==> !lastPwmErr[f.fan]) && (pwmWrites[f.fan] == old(pwmWrites)[f.fan] ==> supportsResult[fans.FeaturePwmSensor] && !lastReadFailed) && err == nil ==> fileInt[fans.hwPwmPath(f.fan.(*fans.HwMonFan))] == f.pwmMap[closestOf(target, distinct(f))]
+//@   ensures[C05.enable] f.fan is *fans.HwMonFan ==> fileInt[fans.hwEnablePath(f.fan.(*fans.HwMonFan))] == old(fileInt)[fans.hwEnablePath(f.fan.(*fans.HwMonFan))]
 //@   ensures[C12.once C01 C05] pwmWrites[f.fan] == old(pwmWrites)[f.fan] || (pwmWrites[f.fan] == old(pwmWrites)[f.fan] + 1 && exists s :: nearestIn(distinct(f), s, target) && lastPwm[f.fan] == f.pwmMap[s])
-//@   modifies f.lastSetPwm, pwmWrites, lastPwm, lastPwmErr, fileInt, procWorld, started, lastReadFailed, supportsResult, f.fan.(*fans.HwMonFan).Pwm, f.fan.(*fans.FileFan).Pwm, f.fan.(*fans.CmdFan).Pwm
+//@   modifies setOK, f.lastSetPwm, pwmWrites, lastPwm, lastPwmErr, fileInt, procWorld, started, lastReadFailed, supportsResult, f.fan.(*fans.HwMonFan).Pwm, f.fan.(*fans.FileFan).Pwm, f.fan.(*fans.CmdFan).Pwm
 
 //@ func (*DefaultFanController).updateDistinctPwmValues
 //@   props C12
@@ -58,7 +65,9 @@ package controller
 //@ func (*DefaultFanController).ensureNoThirdPartyIsMessingWithUs
 //@   props C05
 //@   requires fans.fanWF(f.fan) && (f.pwmMap != nil ==> mapInv(f)) && (f.lastSetPwm != nil ==> util.inInt32(*f.lastSetPwm))
-//@   ensures f.stats.UnexpectedPwmValueCount >= old(f.stats.UnexpectedPwmValueCount)
+//@   ensures f.stats.UnexpectedPwmValueCount >= old(f.stats.UnexpectedPwmValueCount) && f.stats.UnexpectedPwmValueCount <= old(f.stats.UnexpectedPwmValueCount) + 1
+//@   ensures[C05.count] f.fan is *fans.HwMonFan && old(f.lastSetPwm) != nil && f.pwmMap != nil ==> (f.stats.UnexpectedPwmValueCount == old(f.stats.UnexpectedPwmValueCount) + 1) == (supportsResult[fans.FeaturePwmSensor] && !lastReadFailed && fileInt[fans.hwPwmPath(f.fan.(*fans.HwMonFan))] != f.pwmMap[closestOf(old(*f.lastSetPwm), distinct(f))])
+//@   ensures[C05.nocount] (old(f.lastSetPwm) == nil || f.pwmMap == nil) ==> f.stats.UnexpectedPwmValueCount == old(f.stats.UnexpectedPwmValueCount)
 //@   modifies f.stats.UnexpectedPwmValueCount, f.fan.(*fans.HwMonFan).Pwm, f.fan.(*fans.FileFan).Pwm, f.fan.(*fans.CmdFan).Pwm, procWorld, started, lastReadFailed, supportsResult
 
 //@ func (*DefaultFanController).calculateTargetPwm
@@ -85,11 +94,16 @@ package controller
 //@   modifies each(*curves.LinearSpeedCurve).Value, each(*curves.FunctionSpeedCurve).Value, each(*curves.PidSpeedCurve).Value, lastAvgRead, lastValue, lastInterp, segLo, segHi, memberVals, memberCount
 //@   modifies each(*util.PidLoop).integral, each(*util.PidLoop).error, each(*util.PidLoop).lastTime, lastPidOut, procWorld, started, lastReadFailed, supportsResult
 
+//@ ghost var modeVerified gmap[int]bool
 //@ func trySetManualPwm
 //@   props C05
 //@   requires fans.fanWF(fan)
+//@   ghostret modeVerified[fan] := fan is *fans.HwMonFan && result == nil && supportsResult[fans.FeatureControlMode] && !lastReadFailed && lastMode[fan] == 1
+//@   ensures[C05.verified] modeVerified[fan] == (fan is *fans.HwMonFan && result == nil && supportsResult[fans.FeatureControlMode] && !lastReadFailed && lastMode[fan] == 1)
+//@   ensures[C05.manual] modeVerified[fan] ==> fileInt[fans.hwEnablePath(fan.(*fans.HwMonFan))] == 1
+//@   ensures[C05.pwmfile] fan is *fans.HwMonFan ==> fileInt[fans.hwPwmPath(fan.(*fans.HwMonFan))] == old(fileInt)[fans.hwPwmPath(fan.(*fans.HwMonFan))]
 //@   ensures[C05.nopwm C01] pwmWrites == old(pwmWrites)
-//@   modifies modeWrites, lastMode, fileInt, lastReadFailed, supportsResult
+//@   modifies modeWrites, lastMode, fileInt, lastReadFailed, supportsResult, modeVerified
 
 //@ func (*DefaultFanController).UpdateFanSpeed
 //@   props C01 C02 C05 C10 C09
@@ -100,9 +114,11 @@ package controller
 //@   ensures[C01.write] pwmWrites[f.fan] == old(pwmWrites)[f.fan] || (pwmWrites[f.fan] == old(pwmWrites)[f.fan] + 1 && f.lastSetPwm != nil && old(fans.fanMin(f.fan)) <= *f.lastSetPwm && *f.lastSetPwm <= old(fans.fanMax(f.fan)) && exists s :: nearestIn(distinct(f), s, *f.lastSetPwm) && lastPwm[f.fan] == f.pwmMap[s])
 //@   ensures[C01.byte]  (forall k :: k in f.pwmMap ==> 0 <= f.pwmMap[k] && f.pwmMap[k] <= 255) && pwmWrites[f.fan] != old(pwmWrites)[f.fan] ==> 0 <= lastPwm[f.fan] && lastPwm[f.fan] <= 255
 //@   ensures[C01.others] forall o int :: o != ref(f.fan) ==> pwmWrites[o] == old(pwmWrites)[o]
+//@   ensures[C05.mode]   result == nil && modeVerified[f.fan] ==> fileInt[fans.hwEnablePath(f.fan.(*fans.HwMonFan))] == 1
+//@   ensures[C05.device] result == nil && f.fan is *fans.HwMonFan && fans.hwPwmPath(f.fan.(*fans.HwMonFan)) in faithful && f.lastSetPwm != nil && (pwmWrites[f.fan] != old(pwmWrites)[f.fan] ==> !lastPwmErr[f.fan]) && (pwmWrites[f.fan] == old(pwmWrites)[f.fan] ==> supportsResult[fans.FeaturePwmSensor] && !lastReadFailed) && setOK[f] ==> fileInt[fans.hwPwmPath(f.fan.(*fans.HwMonFan))] == f.pwmMap[closestOf(*f.lastSetPwm, distinct(f))]
 //@   ensures[C10.stop]  result != nil ==> pwmWrites == old(pwmWrites) && f.lastSetPwm == old(f.lastSetPwm)
 //@   ensures[C01.inv C02 C05 C10 C03 C09] ctrlInv(f) && mapInv(f)
-//@   modifies f.lastSetPwm, pwmWrites, lastPwm, lastPwmErr, modeWrites, lastMode, fileInt
+//@   modifies f.lastSetPwm, pwmWrites, lastPwm, lastPwmErr, modeWrites, lastMode, fileInt, modeVerified, setOK
 //@   modifies f.minPwmOffset, f.stats.MinPwmOffset, f.stats.IncreasedMinPwmCount, f.stats.UnexpectedPwmValueCount
 //@   modifies f.fan.(*fans.HwMonFan).RpmMovingAvg, f.fan.(*fans.HwMonFan).Pwm
 //@   modifies f.fan.(*fans.FileFan).Rpm, f.fan.(*fans.FileFan).Pwm, f.fan.(*fans.CmdFan).Rpm, f.fan.(*fans.CmdFan).Pwm
